@@ -5,5 +5,5 @@ CONSTANTS
   NP = 8
   Scenarios <- ScenariosThorough
   Split = FALSE
-INVARIANTS NoLostMark NoPhantom NoStray InRange
+INVARIANTS NoLostMark EveryMarkCounts NoPhantom NoStray InRange
 CHECK_DEADLOCK FALSE
